@@ -204,6 +204,40 @@ def mon_accept_once(case):
     return out
 
 
+def mon_refusal_inert(case):
+    """C02/C12: a refused submission has no effect on the runtime's protocol state — repeated at once,
+    with nothing else happening, it is answered the same."""
+    out = []
+    steps = case["steps"]
+    cur = None
+    def strip(ws):
+        return [w for w in ws if not w.startswith("h=")]
+    for i, (ws, obs, side) in enumerate(steps):
+        for e in entries(obs):
+            m = re.match(r"rt\.next=200,(id#\d+),", e)
+            if m:
+                cur = m.group(1)
+        if i + 1 >= len(steps) or not (ws[0] == "rt" and ws[1] in ("response", "error")):
+            continue
+        ws2, obs2, _ = steps[i + 1]
+        if strip(ws) != strip(ws2):
+            continue
+        es1, es2 = entries(obs), entries(obs2)
+        if len(es1) != 1 or len(es2) != 1:
+            continue
+        pre = "rt." + ws[1] + "="
+        if not (es1[0].startswith(pre) and es2[0].startswith(pre)):
+            continue
+        a1, a2 = es1[0][len(pre):], es2[0][len(pre):]
+        if a1[:1] == "4" and a1 != a2:
+            target = cur if ws[2] == "cur" else ws[2]
+            tag = ""
+            if a1.startswith("400,InvalidRequestID") and a2.startswith("403") and target == cur:
+                tag = "@C02:refused-after-platform-error@ "
+            out.append(tag + f"step {i+1}: the submission for {target} was refused with {a1}; repeated at once it was answered {a2}: the refusal changed the runtime's protocol state")
+    return out
+
+
 # ---------------------------------------------------------------- C03 / C04
 
 def _gen_of(name):
